@@ -206,6 +206,9 @@ func (f *Frame) run(st *State, params []Val, bindings []Val) ([]Val, *State) {
 				if strings.HasSuffix(inv.Label, "@root") && f.parent != nil {
 					continue // an invariant that only the function's own postconditions need
 				}
+				if strings.HasSuffix(inv.Label, "@inlined") && f.parent == nil {
+					continue // an invariant about the caller's context (established by the caller)
+				}
 				if inv.Loop == l.ordinal && !skipLabel(inv.Label) {
 					l.userInv = append(l.userInv, inv)
 				}
